@@ -831,7 +831,7 @@ def decodeOpusFrame (mode bandwidth nCh frameMs10 : Nat) (decodeFec : Bool) (st 
 /-- Per-frame outcome at packet level. -/
 inductive FrameRes where
   | plc                         -- len ≤ 1: PLC/DTX, no symbols read
-  | celt                        -- CELT-only frame: outside the SILK symbol layer
+  | celt (off sz : Nat)         -- CELT-only frame (offset, size): no SILK symbols; its header is OpusModel/CeltSyms.lean
   | silk (off : Nat) (o : FrameOut)   -- `off` = offset of the frame in the packet
   deriving Repr
 
@@ -845,7 +845,7 @@ def framesLoop (toc : Nat) (pkt : Bytes) (decodeFec : Bool) : List (Nat × Nat) 
       | e => e
     else if Framing.getMode toc = 1002 then
       match framesLoop toc pkt decodeFec rest st with
-      | .ok l => .ok (.celt :: l)
+      | .ok l => .ok (.celt off sz :: l)
       | e => e
     else
       match decodeOpusFrame (Framing.getMode toc) (Framing.getBandwidth toc) (Framing.getNbChannels toc)
